@@ -2798,7 +2798,7 @@ class WBEMConnection:  # pylint: disable=too-many-instance-attributes
                         arg_name, type(bool_param)))
         return bool_param
 
-    def _get_rslt_params(self, result, namespace):
+    def _get_rslt_params(self, result, namespace, object_type=None):
         """
         Common processing for pull results to separate end-of-sequence,
         enum-context, and entities in IRETURNVALUE.
@@ -2834,6 +2834,14 @@ class WBEMConnection:  # pylint: disable=too-many-instance-attributes
 
             elif p[0] == "IRETURNVALUE":
                 rtn_objects = p[2]
+                for obj in (rtn_objects if object_type is not None else ()):
+                    if not isinstance(obj, object_type):
+                        raise CIMXMLParseError(
+                            _format("Expecting {0} object in result list of "
+                                    "open/pull response, got {1} object",
+                                    object_type.__name__,
+                                    obj.__class__.__name__),
+                            conn_id=self.conn_id)
 
         if not end_of_sequence_found and not enumeration_context_found:
             raise CIMXMLParseError(
@@ -7090,7 +7098,7 @@ class WBEMConnection:  # pylint: disable=too-many-instance-attributes
                 has_out_params=True)
 
             result_tuple = pull_inst_result_tuple(
-                *self._get_rslt_params(result, namespace))
+                *self._get_rslt_params(result, namespace, CIMInstance))
             return result_tuple
 
         except (CIMXMLParseError, XMLParseError) as exce:
@@ -7321,7 +7329,7 @@ class WBEMConnection:  # pylint: disable=too-many-instance-attributes
                 has_out_params=True)
 
             result_tuple = pull_path_result_tuple(
-                *self._get_rslt_params(result, namespace))
+                *self._get_rslt_params(result, namespace, CIMInstanceName))
             return result_tuple
 
         except (CIMXMLParseError, XMLParseError) as exce:
@@ -7604,7 +7612,7 @@ class WBEMConnection:  # pylint: disable=too-many-instance-attributes
                 has_out_params=True)
 
             result_tuple = pull_inst_result_tuple(
-                *self._get_rslt_params(result, namespace))
+                *self._get_rslt_params(result, namespace, CIMInstance))
             return result_tuple
 
         except (CIMXMLParseError, XMLParseError) as exce:
@@ -7857,7 +7865,7 @@ class WBEMConnection:  # pylint: disable=too-many-instance-attributes
                 has_out_params=True)
 
             result_tuple = pull_path_result_tuple(
-                *self._get_rslt_params(result, namespace))
+                *self._get_rslt_params(result, namespace, CIMInstanceName))
             return result_tuple
 
         except (CIMXMLParseError, XMLParseError) as exce:
@@ -8120,7 +8128,7 @@ class WBEMConnection:  # pylint: disable=too-many-instance-attributes
                 has_out_params=True)
 
             result_tuple = pull_inst_result_tuple(
-                *self._get_rslt_params(result, namespace))
+                *self._get_rslt_params(result, namespace, CIMInstance))
             return result_tuple
 
         except (CIMXMLParseError, XMLParseError) as exce:
@@ -8348,7 +8356,7 @@ class WBEMConnection:  # pylint: disable=too-many-instance-attributes
                 has_out_params=True)
 
             result_tuple = pull_path_result_tuple(
-                *self._get_rslt_params(result, namespace))
+                *self._get_rslt_params(result, namespace, CIMInstanceName))
             return result_tuple
 
         except (CIMXMLParseError, XMLParseError) as exce:
@@ -8577,7 +8585,8 @@ class WBEMConnection:  # pylint: disable=too-many-instance-attributes
                 MaxObjectCount=MaxObjectCount,
                 has_out_params=True)
 
-            insts, eos, enum_ctxt = self._get_rslt_params(result, namespace)
+            insts, eos, enum_ctxt = self._get_rslt_params(
+                result, namespace, CIMInstance)
 
             query_result_class = _GetQueryRsltClass(result) if \
                 ReturnQueryResultClass else None
@@ -8732,7 +8741,7 @@ class WBEMConnection:  # pylint: disable=too-many-instance-attributes
                 has_out_params=True)
 
             result_tuple = pull_inst_result_tuple(
-                *self._get_rslt_params(result, namespace))
+                *self._get_rslt_params(result, namespace, CIMInstance))
             return result_tuple
 
         except (CIMXMLParseError, XMLParseError) as exce:
@@ -8877,7 +8886,7 @@ class WBEMConnection:  # pylint: disable=too-many-instance-attributes
                 has_out_params=True)
 
             result_tuple = pull_path_result_tuple(
-                *self._get_rslt_params(result, namespace))
+                *self._get_rslt_params(result, namespace, CIMInstanceName))
             return result_tuple
 
         except (CIMXMLParseError, XMLParseError) as exce:
@@ -9016,7 +9025,7 @@ class WBEMConnection:  # pylint: disable=too-many-instance-attributes
                 has_out_params=True)
 
             result_tuple = pull_inst_result_tuple(
-                *self._get_rslt_params(result, namespace))
+                *self._get_rslt_params(result, namespace, CIMInstance))
             return result_tuple
 
         except (CIMXMLParseError, XMLParseError) as exce:
